@@ -197,7 +197,7 @@ def run_unit(ck, unit):
         return
     variants.setdefault(tree_text(base), (None, base))
     allowed = written_keys(base)
-    tr = TreeRunner(ck, Bounds(str_cap=3, arr_cap=2 if quick else 3, depth=2))
+    tr = TreeRunner(ck, Bounds(str_cap=3, arr_cap=2 if quick else 3, depth=3 if 'n.m.f' in name else 2))
     tr.uni.numstr_cap = 2
     for txt, (opts, rj) in variants.items():
         label = '%s opts=%s' % (name, opts_label(opts) if opts else 'none')
@@ -240,13 +240,55 @@ def run_unit(ck, unit):
             for _, ev in events:
                 if ev[0] in ('find', 'get'):
                     req.add('%s/%s' % (ev[1], ev[2].decode('utf-8', 'replace')))
-            stray = [n for n in names if not any(n.startswith(r + '.') or n.startswith(r + '#') for r in req)
+            # the number of keys of an object (Object::len) is not a field the rule addresses: it changes when an unaddressed
+            # field is added or removed
+            stray = [n for n in names if (not any(n.startswith(r + '.') or n.startswith(r + '#') for r in req) or n.endswith('.nkeys'))
                      and not n.startswith(('re<', 'parse_f64', 'str('))]
-            ck.obligations += 1
-            if stray:
-                ck.inconclusive.append('%s: verdict depends on variables of unrequested cells: %s' % (label, stray[:4]))
-            else:
+            if not stray:
+                ck.obligations += 1
                 ck.discharged += 1
+            else:
+                # the verdict term mentions something the rule does not address: can it change the verdict?  Two documents
+                # that agree on everything else (the stray variables are renamed in a second copy of the term and of the
+                # range axioms); z3 decides whether their verdicts can differ, the pair is replayed natively
+                byname = {str(x): x for x in free_vars(v['res'])}
+                pairs = [(byname[n], z3.Const(n + "'", byname[n].sort())) for n in stray]
+                res2 = z3.substitute(v['res'], *pairs)
+                ax2 = []
+                for a in tr.uni.axioms:
+                    a2 = z3.substitute(a, *pairs)
+                    if not a2.eq(a):
+                        ax2.append(a2)
+
+                def on_sat2(model, pairs=pairs, label=label, opts=opts, rj=rj, stray=stray):
+                    d1 = tr.render_doc(model)
+                    d2 = tr.render_doc(SubstModel(model, pairs))
+                    n1 = br.call(cmd='eval', yaml=yaml, opts=opts, doc=d1, mode='flat')
+                    n2 = br.call(cmd='eval', yaml=yaml, opts=opts, doc=d2, mode='flat')
+                    path = ck.write_replay(safe(label) + '_unaddressed', {'rule': yaml, 'opts': opts, 'doc_a': d1, 'doc_b': d2, 'native_a': n1, 'native_b': n2,
+                                                                         'differ_only_in': stray, 'tree': rj['display']})
+                    if 'verdict' not in n1 or 'verdict' not in n2:
+                        return ('spurious', 'native evaluation failed')
+                    ck.replays_ok += 1
+                    if n1['verdict'] == n2['verdict']:
+                        return ('spurious', 'native verdicts agree (%s)' % path)
+                    return ('violation', path, '%s: two documents that differ only in what the rule does not address (%s) get different verdicts: %s -> %s, %s -> %s' % (
+                        label, ', '.join(stray[:3]), json.dumps(d1), n1['verdict'], json.dumps(d2), n2['verdict']))
+                ck.obligation(label + ':verdict-ignores-unaddressed', tr.uni, z3.And(*ax2, (v['res'] == z3.BitVecVal(0, 64)) != (res2 == z3.BitVecVal(0, 64))),
+                              on_sat=on_sat2)
+
+
+class SubstModel:
+    """a model read through a renaming of variables (the second document of a pair)"""
+
+    def __init__(self, model, pairs):
+        self.model, self.pairs = model, pairs
+
+    def eval(self, t, model_completion=False):
+        return self.model.eval(z3.substitute(t, *self.pairs), model_completion=model_completion)
+
+    def __getitem__(self, k):
+        return self.model[k]
 
 
 def free_vars(t):
